@@ -38,6 +38,7 @@ def hConvertHap (j : Json) : R Json := do
   let strands ← listF nat j "strands"
   let b := Convert.convert hap c (fun p => ps.getD p []) choices strands
   pure <| jObj [("ends", jArr (b.ends.map jNat)),
-                ("srcs", jArr (b.srcs.map (fun s => jArr [jNat s.sample, jNat s.strand, jNat s.pop])))]
+                ("srcs", jArr (b.srcs.map (fun s => jArr [jNat s.sample, jNat s.strand, jNat s.pop]))),
+                ("requests", jArr ((Convert.requests hap c).map (fun r => jArr [jNat r.1, jNat r.2])))]
 
 end Drv
